@@ -350,8 +350,11 @@ class Engine:
             import os
             n = len(os.listdir(_XDUMP))
             if n < _XMAX:
+                tmp = z3.Solver()
+                tmp.add(self.solver.assertions())
+                tmp.add(neg, *excl)
                 with open(os.path.join(_XDUMP, f"q{os.getpid()}_{n}.smt2"), "w") as f:
-                    f.write(f"; z3-verdict: {r}\n(set-logic ALL)\n" + self.solver.sexpr() + "".join(f"(assert {e.sexpr()})\n" for e in [neg] + excl) + "(check-sat)\n")
+                    f.write(f"; z3-verdict: {r}\n(set-logic ALL)\n" + tmp.sexpr() + "(check-sat)\n")
         if r == "unknown":
             r = self._retry(neg, excl)
         if r == "unsat":
